@@ -16,6 +16,8 @@ def sid_to_bytes(sid: str) -> bytes:
     sid_split = sid.split("-")
     revision = int(sid_split[1])
     authority = int(sid_split[2])
+    if authority > 0xFFFFFFFFFFFF:
+        raise ValueError(f"Input string '{sid}' is not a valid SID string: identifier authority is out of range")
 
     data = bytearray(authority.to_bytes(8, byteorder="big"))
     data[0] = revision
@@ -23,6 +25,9 @@ def sid_to_bytes(sid: str) -> bytes:
 
     for idx in range(3, len(sid_split)):
         sub_auth = int(sid_split[idx])
+        if sub_auth > 0xFFFFFFFF:
+            raise ValueError(f"Input string '{sid}' is not a valid SID string: sub authority is out of range")
+
         data += sub_auth.to_bytes(4, byteorder="little")
 
     return bytes(data)
